@@ -1,7 +1,7 @@
 (* C12 / C17 restated for the JSON record writer and reader REGENERATED from json_handler/writer.py and parser.py on every
    run (Gen/JsonFns.v, written by harness/gen_jsonw.py), through the equalities of Proofs/JsonGen.v.
    What the generated reader returns is read through the typed views shape_log / shape_setting of Proofs/JsonGen.v. *)
-From BE Require Import Model.Json Model.Schema Gen.Schemas Gen.JsonFns Proofs.JsonGen.
+From BE Require Import Model.Json Model.Schema Model.SchemasHand Gen.JsonFns Proofs.JsonGen.
 From BE Require Proofs.Json.
 Import Proofs.Json.
 Local Open Scope string_scope.
